@@ -460,6 +460,10 @@ class Gen(object):
             else:
                 it["bid"] = None if self.p(0.7) else "only"
             items.append(it)
+        if nitems > 1 and self.p(self.profile.get("duplicate_bid", 0.05)):
+            # the Unique Batch Item ID is an opaque correlation value: nothing obliges a client to make them distinct
+            k = self.r.randrange(1, nitems)
+            items[k]["bid"] = items[self.r.randrange(0, k)]["bid"]
         req = {"version": v if self.p(0.985) else self.ch([9, 21, 30]), "ts": None, "async": None, "bopt": None,
                "maxsize": None, "items": items}
         if self.p(0.06):
